@@ -153,7 +153,11 @@ func genBObservations(r *rand.Rand, u *storeUniverse, bdata []*Tup) []*bObs {
 	own := bdata[r.IntN(len(bdata))]
 	other := u.tuple(r)
 	for shape := 0; shape < 16; shape++ {
-		out = append(out, &bObs{Kind: "list", Query: queryOfShape(shape, own), Size: listPageSizes[r.IntN(len(listPageSizes))]})
+		sz := listPageSizes[r.IntN(len(listPageSizes))]
+		if shape%4 == 0 {
+			sz = 1 // every page is full, also the last one
+		}
+		out = append(out, &bObs{Kind: "list", Query: queryOfShape(shape, own), Size: sz})
 		out = append(out, &bObs{Kind: "list", Query: queryOfShape(shape, other), Size: listPageSizes[r.IntN(len(listPageSizes))]})
 	}
 	g := newGraphModel(bdata)
@@ -199,11 +203,13 @@ func xnodeCanon(n *xnode) string {
 func observeB(d storeDriver, o *bObs) string {
 	switch o.Kind {
 	case "list":
-		rows, _, ans := listAll(d, o.Query, o.Size)
+		rows, pages, ans := listAll(d, o.Query, o.Size)
 		if ans.Class != "ok" {
 			return "answer:" + ans.Class
 		}
-		return "rows:" + strings.Join(sortedKeys(rows), "\x01")
+		// the page structure is an observable too (a token after a full last page
+		// would show as one more, empty, page)
+		return "rows:" + strings.Join(sortedKeys(rows), "\x01") + fmt.Sprintf("|pages=%d", pages)
 	case "check":
 		ca := d.check(o.Tuple, 0)
 		if ca.Class != "ok" {
@@ -455,7 +461,7 @@ func runC06Case(run *runner, idx int64, wiring string, c *c06Case, seen map[stri
 		}
 		// B's own view must be the model of B (sanity of the set-up; lists only)
 		if o.Kind == "list" && strings.HasPrefix(base[i], "rows:") {
-			if want := "rows:" + strings.Join(sortedKeys(m.model.match("B", o.Query)), "\x01"); want != base[i] {
+			if want := "rows:" + strings.Join(sortedKeys(m.model.match("B", o.Query)), "\x01"); want != strings.SplitN(base[i], "|pages=", 2)[0] {
 				m.violate(wiring+"/setup", "C06:B-list-differs-from-its-model:"+B.drivers[i%len(B.drivers)].name(), fmt.Sprintf("list %s in B differs from B's data before A did anything", descQuery(o.Query)), nil)
 				return "violation"
 			}
